@@ -13,7 +13,8 @@ Used for two things on every check run:
 import json, os, re, sys
 
 OPS = ["load", "store", "swap", "compare_exchange_weak", "compare_exchange", "fetch_add", "fetch_sub",
-       "fetch_or", "fetch_and", "take", "clear", "unsync_load"]
+       "fetch_or", "fetch_and", "take", "clear", "unsync_load", "push", "pop"]
+QUEUE_RECV = re.compile(r"(to_wake|queue|ev_queue)$")
 OP_RE = re.compile(r"\.\s*(" + "|".join(OPS) + r")\s*\(")
 POINT_RE = re.compile(r"(crate::verif::point|may_queue::verif::point)\s*\(\s*\"([a-z_.]+)\"")
 FN_RE = re.compile(r"\bfn\s+([A-Za-z_][A-Za-z0-9_]*)")
@@ -76,11 +77,18 @@ def receiver(text, pos):
             if depth == 0:
                 break
             depth -= 1
-        elif depth == 0 and (c in ",;{}=!&|<>+-*/%\n" and not (c in "-" and False)):
+        elif depth == 0 and c in ",;{}=!&|<>+-*/%":
             # allow '&' / '*' prefixes to be cut, '->' never occurs here
             break
-        elif depth == 0 and c == " ":
-            # 'unsafe { &*x }' etc: stop at whitespace unless inside parens
+        elif depth == 0 and c in " \n\t":
+            # whitespace ends the receiver unless it only breaks a method chain over lines ("x\n    .y")
+            k = j + 1
+            while k < pos and text[k] in " \n\t":
+                k += 1
+            if k < pos and text[k] == ".":
+                while j >= 0 and text[j] in " \n\t":
+                    j -= 1
+                continue
             break
         j -= 1
     r = text[j + 1:pos]
@@ -155,7 +163,10 @@ def audit_file(path, rel):
             fn = (impls[-1] + "::" if impls else "") + fns[0]
             if kind == "op":
                 op, dot = data
-                recv = receiver(txt, dot)
+                end = dot
+                while end > 0 and txt[end - 1].isspace():
+                    end -= 1   # method chains broken over lines
+                recv = receiver(txt, end)
                 # orderings: scan the argument list
                 j = txt.index("(", off)
                 d, k = 0, j
@@ -172,6 +183,10 @@ def audit_file(path, rel):
                     continue
                 # `take`/`clear`/`store` without Ordering: only AtomicOption / AtomicDuration style receivers are hooked;
                 # Option::take on plain values is not a site. Keep them; the run-time table decides which exist.
+                if op in ("push", "pop"):
+                    if not QUEUE_RECV.search(recv):
+                        continue
+                    op = "segq." + op
                 opn = "cas" if op.startswith("compare_exchange") else op
             else:
                 recv, opn, ords = "", data, []
